@@ -484,7 +484,7 @@ class Src:
 
     def int(self, name, lo, hi):
         if self.fixed_ints:
-            return 4  # obligations about names keep the integer payloads concrete
+            return min(max(4, lo), hi)  # obligations about names and attribute dictionaries keep the other integer payloads concrete
         if self.c is not None:
             return int(self.c.get(name, 0))
         if self.nfocus > 1:
@@ -707,14 +707,49 @@ def build_module(ob, src):
     return m
 
 
+# discardable attributes named like a property that the tree is known to lose in custom form (known_findings.json); the
+# general variants leave these out and a dedicated obligation per entry keeps reporting them
+KNOWN_CLASH = {("*", "operandSegmentSizes"), ("func.func", "sym_name"), ("func.func", "function_type"), ("func.func", "sym_visibility"), ("func.func", "arg_attrs"),
+               ("memref.alloc", "alignment"), ("memref.alloca", "alignment")}
+
+
+def add_discardable(m, src, only=None):
+    """every operation gets a discardable attribute with one shared symbolic payload, and - where the operation still
+    verifies - discardable attributes named like each of its properties (a name coincidence the two dictionaries allow)"""
+    from xdsl.dialects.builtin import StringAttr, i32
+
+    lo, hi = int_range(i32)
+    shared = IntegerAttr(src.int("extra", lo, hi), i32)
+    for op in list(m.walk()):
+        if op is m:
+            continue
+        if only is None:
+            op.attributes["vx.extra"] = shared
+        for k in list(op.properties):
+            known = (op.name, k) in KNOWN_CLASH or ("*", k) in KNOWN_CLASH
+            if k in op.attributes or (known if only is None else [op.name, k] not in [list(x) for x in only]):
+                continue
+            op.attributes[k] = StringAttr("clash")
+            try:
+                op.verify_()
+                if hasattr(type(op), "get_irdl_definition"):
+                    type(op).get_irdl_definition().verify(op)
+            except Exception:
+                del op.attributes[k]
+
+
 def harness(ob, concrete=None):
     def h(ex):
         symstr.RENDER_INTS[0] = True
         symstr.SYM_BYTEARRAY[0] = True
         symstr.SYM_DICT[0] = True
         symstr.HAVOC_FLOAT[0] = False
-        src = Src(ex, concrete, FOCUS.get(ob.get('gen') or ob['module'], 0), fixed_ints=bool(ob.get('sym_names')))
+        src = Src(ex, concrete, FOCUS.get(ob.get('gen') or ob['module'], 0), fixed_ints=bool(ob.get('sym_names') or ob.get('attrs') or ob.get('clash_only')))
         m = build_module(ob, src)
+        if ob.get("attrs"):
+            add_discardable(m, Src(ex, concrete))
+        if ob.get("clash_only"):
+            add_discardable(m, Src(ex, concrete, fixed_ints=True), only=ob["clash_only"])
         try:
             m.verify()
         except VerifyException:
@@ -761,6 +796,7 @@ def bounds(tier):
     return {"catalogue_modules": sorted(k for k in MODULES if k != "probe"), "generated_operations": sorted(GEN_OPS),
             "symbolic_payloads": "integer constants, dense/array elements, switch case values, static offsets/sizes/strides, alignments, argument/result/discardable attribute values: full range of their type; "
                                  "comparison predicates: all; symbol names and strings: 1-2 cells over ASCII (12 classes)",
+            "discardable_attributes": "one variant of every module adds a discardable attribute with a symbolic i32 payload to every operation and, where the operation still verifies, discardable attributes named like its properties",
             "enumerated": "presence of optional attributes/operands/results, variadic counts 0-2, overflow/fast-math flag sets (8 variants), element counts 0-2"}
 
 
@@ -773,6 +809,14 @@ def obligations(tier):
         obs.append({"id": f"C05/{k}", "module": k, "weight": 5})
         if k in SYM_NAMES:
             obs.append({"id": f"C05/{k}/names", "module": k, "sym_names": SYM_NAMES[k], "name_len": 2 if th else 1, "weight": 8})
+    for k in MODULES:
+        if k != "probe":
+            obs.append({"id": f"C05/{k}/attrs", "module": k, "attrs": True, "weight": 6})
+    for g in ("dflt_group", "typed", "unit", "same", "var"):
+        obs.append({"id": f"C05/gen/{g}/attrs", "gen": g, "attrs": True, "len": 1, "weight": 6})
+    obs.append({"id": "C05/clash_known/segment_sizes", "module": "cf", "clash_only": [["cf.cond_br", "operandSegmentSizes"]], "weight": 2})
+    obs.append({"id": "C05/clash_known/func", "module": "func", "clash_only": [["func.func", n] for n in ("sym_name", "function_type", "sym_visibility", "arg_attrs")], "weight": 2})
+    obs.append({"id": "C05/clash_known/alignment", "module": "memref", "clash_only": [["memref.alloc", "alignment"]], "weight": 2})
     obs.append({"id": "C05/cmp1/pred", "module": "cmp1", "sym_pred": True, "sym_enum": True, "weight": 8})
     obs.append({"id": "C05/arith_float/flags", "module": "arith_float", "sym_enum": True, "weight": 8})
     obs.append({"id": "C05/arith_bin/flags", "module": "arith_bin", "sym_enum": True, "weight": 5})
